@@ -20,7 +20,7 @@ Copyright 2016--2023 Michael Hayes, UCECE
 # Add exp(-pi*(a * (t-tau))**2)
 
 from sympy.core.function import AppliedUndef
-from sympy import sympify, pi, exp, I, oo, S, sign, sin, cos, sinh, cosh, tanh
+from sympy import sympify, pi, exp, I, oo, S, sign, sin, cos, sinh, cosh, tanh, im
 from sympy import DiracDelta, Heaviside, FourierTransform, Integral
 from sympy import fourier_transform as sympy_fourier_transform, Function
 from .sym import symsimplify, j
@@ -285,6 +285,13 @@ class FourierTransformer(BilateralForwardTransformer):
                     c0 = foo.coeff(t, 0)
                     c1 = foo.coeff(t, 1)
                     s = (2 * pi * I) / c1
+                    # The result depends on the half-plane of the pole at -c0 / c1.
+                    pole_imag = im(symsimplify(-c0 / c1))
+                    if pole_imag.is_negative:
+                        return -const1 * s * exp(c0 * sf * s) * Heaviside(sf)
+                    if pole_imag.is_zero:
+                        # Real pole, use Cauchy principal value.
+                        return -const1 * s / 2 * exp(c0 * sf * s) * sign(sf)
                     return const1 * s * exp(c0 * sf * s) * Heaviside(-sf)
                 elif foo.is_Function and foo.func == cosh and foo.args[0] == t:
                     return const * pi / cosh(pi**2 * sf)
